@@ -58,7 +58,8 @@ def _job(args):
         if r1.returncode == 0 and r2.returncode == 0 and count_lines(ops) == count_lines(impl) == count_lines(model):
             break
     res = dict(cname=cname, findings=[], hist_op=collections.Counter(), hist_mask=collections.Counter(),
-               hist_fmt=collections.Counter(), hist_tag=collections.Counter(), nontrivial=0, samples=[], n=0)
+               hist_fmt=collections.Counter(), hist_tag=collections.Counter(), nontrivial=0, samples=[], n=0,
+               oracle_stat=collections.Counter())
     n, dis = diff_streams(ops, impl, model, limit=200)
     res["n"] = n
     with open(ops) as f:
@@ -91,6 +92,10 @@ def _job(args):
             mm = re.match(r"ORACLE (\d+) (.*)", ol.strip())
             if mm:
                 orc_lines.setdefault(int(mm.group(1)), mm.group(2))
+            elif ol.startswith("STAT ") and cname == "default":
+                tk = ol.split()
+                for k, v in zip(tk[1::2], tk[2::2]):
+                    res["oracle_stat"][k] += int(v)
     if orc_lines or dis:
         impl_lines = open(impl).read().split("\n")
         model_lines = open(model).read().split("\n")
@@ -136,11 +141,13 @@ def run_streams(ctx, mode, nbatches, nstreams):
     findings = []
     hist_op, hist_mask, hist_fmt, hist_cfg, hist_tag = (collections.Counter() for _ in range(5))
     samples, total, nontrivial = [], 0, 0
+    oracle_stat = collections.Counter()
     for r in results:
         total += r["n"]
         hist_cfg[r["cname"]] += r["n"]
         hist_op.update(r["hist_op"]); hist_mask.update(r["hist_mask"]); hist_fmt.update(r["hist_fmt"]); hist_tag.update(r["hist_tag"])
         nontrivial += r["nontrivial"]
+        oracle_stat.update(r["oracle_stat"])
         samples += r["samples"]
         findings += r["findings"]
     ctx.cov["evaluations"] += total
@@ -152,6 +159,7 @@ def run_streams(ctx, mode, nbatches, nstreams):
     ctx.extra.setdefault("format_pair_histogram_top", {}).update(dict(hist_fmt.most_common(25)))
     ctx.extra.setdefault("requests_per_chain", {}).update(dict(hist_cfg))
     ctx.extra.setdefault("early_out_branch_histogram", {}).update(dict(hist_tag))
+    ctx.extra.setdefault("blend_mode_oracle_requests", {}).update(dict(oracle_stat))   # per chain "default"; same requests under the others
     return findings
 
 
@@ -260,7 +268,7 @@ def replay(ctx, path):
     ctx.lean_obligations(f"Pixman.Props.{ctx.pid}", [])
     ctx.pixdrv("composite", ops, model)
     n, dis = diff_streams(ops, impl, model)
-    orc_txt = orc.read_text().strip()
+    orc_txt = "\n".join(l for l in orc.read_text().split("\n") if l.startswith("ORACLE")).strip()   # STAT lines are counters
     for l, a, m in zip(batch, impl.read_text().split("\n"), model.read_text().split("\n")):
         log(f"  {l}  ->  library {a}   model {m}")
     if orc_txt:
